@@ -698,6 +698,11 @@ func vfNewVectorIndexOfKind(kindName string, dim int, metric DistanceKind, train
 
 func vfC05Run(c vfC05Case, ctx *vfCtx) *vfViolation {
 	ctx.HistoryLen("history", len(c.Ops))
+	// somebody else in the process starts from the default fusion configuration and changes it: the
+	// searches below that rely on the defaults (WithFusionKind, no fusion set) must not notice
+	if dc := DefaultFusionConfig(); dc != nil {
+		dc.VectorWeight, dc.TextWeight, dc.K = 5, 0.25, 2
+	}
 	kind := DistanceKind(c.Metric)
 	var vi VectorIndex
 	var ti TextIndex
